@@ -517,6 +517,27 @@ func (u *Unit) sendCheck(env *Env, ch Term, at ast.Node) {}
 // clause - its communication (an event, as outside a select) followed by its body.  A break leaves the select.
 func (u *Unit) execSelect(st *ast.SelectStmt, env *Env) []Outcome {
 	var res []Outcome
+	// Go evaluates every channel operand on entering the select, whichever clause then proceeds.  For operands that are calls
+	// of opaque library functions (time.After(d)) this is done here for all paths, so that specifications can speak of the
+	// call (<Func>_arg<i>) also on the paths that take another clause; the clause's own evaluation repeats it harmlessly.
+	for _, cc := range st.Body.List {
+		var rx ast.Expr
+		switch c := cc.(*ast.CommClause).Comm.(type) {
+		case *ast.ExprStmt:
+			rx = c.X
+		case *ast.AssignStmt:
+			if len(c.Rhs) == 1 {
+				rx = c.Rhs[0]
+			}
+		}
+		if ue, ok := unparen0(rx).(*ast.UnaryExpr); ok && ue.Op == token.ARROW {
+			if call, ok := unparen0(ue.X).(*ast.CallExpr); ok {
+				if fn := calleeObj(u, call.Fun); fn != nil && fn.Pkg() != nil && isOpaquePkg(fn.Pkg().Path()) {
+					u.eval(call, env)
+				}
+			}
+		}
+	}
 	for _, cc := range st.Body.List {
 		clause := cc.(*ast.CommClause)
 		e := env.clone()
@@ -614,6 +635,12 @@ func (u *Unit) havocTraceLoop(env *Env) {
 
 // <-ch : an arbitrary value (event kind 7: receive on tr_obj, value in tr_res); ok is arbitrary
 func (u *Unit) chanRecv(env *Env, ch ast.Expr, pos token.Pos) (Value, Term) {
+	return u.chanRecv2(env, ch, pos, false)
+}
+
+// commaOk: the receive is "v, ok := <-ch" - the code itself deals with a closed channel, so "opt recv-nonnil" must not assume the
+// channel open there (that would make the code's own exit unreachable and every postcondition vacuous)
+func (u *Unit) chanRecv2(env *Env, ch ast.Expr, pos token.Pos, commaOk bool) (Value, Term) {
 	c := u.eval(ch, env)
 	ct, ok := types.Unalias(c.Ty).Underlying().(*types.Chan)
 	if !ok {
@@ -627,11 +654,15 @@ func (u *Unit) chanRecv(env *Env, ch ast.Expr, pos token.Pos) (Value, Term) {
 		// "opt recv-nonnil": the channel is open while this unit receives and nobody sends nil on it (stated with the contract)
 		switch v.Sort {
 		case SRef:
-			env.assume(Not(Same(v, Term{"nil_Ref", SRef})))
+			env.assume(Imp(okT, Not(Same(v, Term{"nil_Ref", SRef}))))
 		case SFn:
-			env.assume(Not(Same(v, Term{"nil_Fn", SFn})))
+			env.assume(Imp(okT, Not(Same(v, Term{"nil_Fn", SFn}))))
 		}
-		env.assume(okT)
+		// "recv-nonnil=values": only that; with any other value the channel is also taken to be open while the unit receives
+		// (for a "v, ok := <-ch" whose exit depends on ok that makes the exit unreachable, which the exit-reachable probe reports)
+		if !(commaOk && u.Block.Opts["recv-nonnil"] == "values") {
+			env.assume(okT)
+		}
 		u.assumeUsed("values received on the unit's channel are non-nil and the channel is open while the unit runs (opt recv-nonnil)")
 	}
 	res := v
@@ -1053,4 +1084,12 @@ func (u *Unit) opaqueIfaceEvent(c *ast.CallExpr, se *ast.SelectorExpr, iname str
 	u.callbackHavoc(env)
 	u.assumeUsed("implementations of " + iname + " act on library objects only through exported methods")
 	return ret(env, vals...)
+}
+
+
+func unparen0(e ast.Expr) ast.Expr {
+	if e == nil {
+		return nil
+	}
+	return unparen(e)
 }
